@@ -152,6 +152,16 @@ def run(tier, seed):
         r = call(fn, *args, **(kw or {}))
         log.add("perfect2", fn_name, r, r, dict(meta or {}, kw=str(kw or {})))
 
+    # extended shorthands next to their own explicit-degree variants, each on a FRESHLY imported library: the reference side
+    # is processed first, so anything the library remembers from it would make the identical estimate differ
+    for q, d in (("9", "13"), ("min9", "11"), ("maj9", "#11"), ("11", "13"), ("13", "b9"), ("min11", "13"), ("maj13", "#9"), ("minmaj7", "9")):
+        m2 = import_mir_eval()
+        root = rng.choice(["G", "C", "Eb", "F#"])
+        labs_x = ["%s:%s" % (root, q), "%s:%s(%s)" % (root, q, d), "%s:%s" % (root, q), "C:maj", "%s:%s" % (root, q)]
+        civ = np.array([[k, k + 1.0] for k in range(len(labs_x))])
+        r = call(m2.chord.evaluate, civ, labs_x, civ.copy(), list(labs_x))
+        log.add("perfect2", "chord.evaluate", r, r, {"intervals": civ.tolist(), "labels": labs_x, "mode": "copy, fresh import", "kw": "{}"})
+    me = import_mir_eval()
     b, s, c, mel, mp, tr, tv, p, h, al = (me.beat, me.segment, me.chord, me.melody, me.multipitch, me.transcription,
                                           me.transcription_velocity, me.pattern, me.hierarchy, me.alignment)
     for it in range(250 if thorough else 50):
@@ -177,6 +187,13 @@ def run(tier, seed):
         t, f = nd_melody(rng)
         perfect("melody.evaluate", mel.evaluate, (t, f), meta={"freq": f.tolist()})
         perfect("melody.evaluate", mel.evaluate, (t, f), {"cent_tolerance": 10, "base_frequency": 20.0}, {"freq": f.tolist()})
+        # the same series on both sides stays perfect under every resampling option (both sides get the same treatment);
+        # the first frames are voiced so that a voiced frame survives any hop
+        f2 = f.copy()
+        f2[:2] = [220.0, 233.0]
+        for kw in ({"hop": 3.0 / 256, "kind": "nearest"}, {"hop": 3.0 / 256, "kind": "zero"}, {"hop": 1.0 / 128, "kind": "linear"},
+                   {"hop": 5.0 / 256, "kind": rng.choice(["nearest", "zero", "slinear"])}):
+            perfect("melody.evaluate", mel.evaluate, (t, f2), kw, {"freq": f2.tolist()})
         mt, mf = nd_multipitch(rng)
         perfect("multipitch.metrics", mp.metrics, (mt, mf), {"window": rng.choice([0.5, 0.01])}, {"freqs": [q.tolist() for q in mf]})
         perfect("multipitch.evaluate", mp.evaluate, (mt, mf), meta={"freqs": [q.tolist() for q in mf]})
